@@ -12,6 +12,7 @@ verus! {
 //@include ../shim/ndarr.rs
 //@include ../shim/zip.rs
 //@include ../shim/realnum.rs
+//@include ../shim/axes.rs
 
 // one step of West's recurrence, in exact arithmetic:
 // from  m*W == P  and  S == Q - m^2 W  to the same facts for the sums extended by the observation (x, w), W + w != 0
@@ -432,6 +433,72 @@ impl<A, D: Dimension> ArrayN<A, D> {
             // mu_3 / sqrt(mu_2)^3  ( = mu_3 / mu_2^1.5 )
             ({ let xs = vals(self@); let sd = sqrt_r(cmoment_def(xs, 2));
                self@.len() > 0 && rpow(sd, 3) != 0real ==> r->Ok_0.val() == cmoment_def(xs, 3) / rpow(sd, 3) }), // [C07]
+//@end
+}
+
+impl<A, D: Dimension> ArrayN<A, D> {
+//@extract file=src/summary_statistics/means.rs impl=SummaryStatisticsExt:ArrayBase fn=weighted_var_axis id=weighted_var_axis tags=C07,C17 body_tags=C07
+//@sig
+    fn weighted_var_axis(&self, axis: Axis, weights: &ArrayN<A, Ix1>, ddof: A) -> (r: Result<ArrayN<A, D::Smaller>, MultiInputError>)
+    where
+        A: AddAssign + Float + FromPrimitive,
+        D: RemoveAxis,
+//@spec
+        requires
+            real_model::<A>(), real_add_assign::<A>(), real_from_usize::<A>(),
+            axis.0 < self.shape_spec().len(), // otherwise the routine panics (indexing the shape)
+            0real <= ddof.val() <= 1real,
+            forall|i: int| 0 <= i < weights@.len() ==> (#[trigger] weights@[i]).val() >= 0real,
+        ensures
+            self@.len() == 0 ==> r matches Err(MultiInputError::EmptyInput), // [C07,C17]
+            self@.len() > 0 && self.shape_spec()[axis.0 as int] != weights@.len() ==> r is Err, // [C07,C17]
+            self@.len() > 0 && self.shape_spec()[axis.0 as int] == weights@.len() ==> r is Ok, // [C07,C17]
+            // one entry per lane along `axis`, each equal to the weighted variance of that lane with the same weights
+            self@.len() > 0 && self.shape_spec()[axis.0 as int] == weights@.len() ==> r->Ok_0@.len() == self.lanes(axis.0 as int).len(), // [C07]
+            ({ let ws = vals(weights@); let wt = wpsum(ws, ws, 0, ws.len() as int);
+               self@.len() > 0 && self.shape_spec()[axis.0 as int] == weights@.len() && wt > 0real && wt - ddof.val() != 0real ==>
+                   forall|j: int| 0 <= j < self.lanes(axis.0 as int).len() ==> (#[trigger] r->Ok_0@[j]).val() == wvar_def(vals(self.lanes(axis.0 as int)[j]), ws, ddof.val()) }), // [C07]
+//@rename_call view verif_view
+//@closure 0
+|lane: ArrayN<A, Ix1>| -> (v: A) requires lane@.len() == weights@.len() ensures ({ let xs = vals(lane@); let ws = vals(weights@); let wt = wpsum(xs, ws, 0, xs.len() as int); wt > 0real && wt - ddof.val() != 0real ==> v.val() == wvar_def(xs, ws, ddof.val()) })
+//@at entry
+        proof { assert(lawful_clone::<usize>()); axiom_lane_len(self, axis.0 as int); }
+        let ghost w0 = weights@;
+//@at after_call map_axis 0
+        proof {
+            let ws = vals(w0); let n = ws.len() as int;
+            let out = __r->Ok_0;
+            assert forall|j: int| 0 <= j < self.lanes(axis.0 as int).len() && wpsum(ws, ws, 0, n) > 0real && wpsum(ws, ws, 0, n) - ddof.val() != 0real implies
+                (#[trigger] out@[j]).val() == wvar_def(vals(self.lanes(axis.0 as int)[j]), ws, ddof.val()) by {
+                let lane = self.lanes(axis.0 as int)[j];
+                lemma_wpsum0_indep(vals(lane), ws, ws, n);
+            }
+        }
+//@end
+
+//@extract file=src/summary_statistics/means.rs impl=SummaryStatisticsExt:ArrayBase fn=weighted_std_axis id=weighted_std_axis tags=C07,C17 body_tags=C07
+//@sig
+    fn weighted_std_axis(&self, axis: Axis, weights: &ArrayN<A, Ix1>, ddof: A) -> (r: Result<ArrayN<A, D::Smaller>, MultiInputError>)
+    where
+        A: AddAssign + Float + FromPrimitive,
+        D: RemoveAxis,
+//@spec
+        requires
+            real_model::<A>(), real_add_assign::<A>(), real_from_usize::<A>(),
+            axis.0 < self.shape_spec().len(),
+            0real <= ddof.val() <= 1real,
+            forall|i: int| 0 <= i < weights@.len() ==> (#[trigger] weights@[i]).val() >= 0real,
+        ensures
+            self@.len() == 0 ==> r matches Err(MultiInputError::EmptyInput), // [C07,C17]
+            self@.len() > 0 && self.shape_spec()[axis.0 as int] != weights@.len() ==> r is Err, // [C07,C17]
+            self@.len() > 0 && self.shape_spec()[axis.0 as int] == weights@.len() ==> r is Ok, // [C07,C17]
+            self@.len() > 0 && self.shape_spec()[axis.0 as int] == weights@.len() ==> r->Ok_0@.len() == self.lanes(axis.0 as int).len(), // [C07]
+            // the square root of the per-lane weighted variance
+            ({ let ws = vals(weights@); let wt = wpsum(ws, ws, 0, ws.len() as int);
+               self@.len() > 0 && self.shape_spec()[axis.0 as int] == weights@.len() && wt > 0real && wt - ddof.val() != 0real ==>
+                   forall|j: int| 0 <= j < self.lanes(axis.0 as int).len() ==> (#[trigger] r->Ok_0@[j]).val() == sqrt_r(wvar_def(vals(self.lanes(axis.0 as int)[j]), ws, ddof.val())) }), // [C07]
+//@closure 0
+|x: A| -> (y: A) ensures y.val() == sqrt_r(x.val())
 //@end
 }
 
